@@ -103,6 +103,28 @@ namespace vh
             for (auto& ep : c["hist"].a)
             {
                 const auto& en = *ep;
+                if (en.has("bad"))
+                {
+                    // a call with an elevation array of another shape (one row too many): whatever it does
+                    // (the library throws from its second sweep), the eroder must serve the next valid call
+                    if (er)
+                    {
+                        xt::xarray<double> hb = xt::zeros<double>({ g->shape()[0] + 1, g->shape()[1] });
+                        int threw = 0;
+                        try
+                        {
+                            er->erode(hb, dt);
+                        }
+                        catch (const std::exception&)
+                        {
+                            threw = 1;
+                        }
+                        vj::obj ob;
+                        ob.str("e", "AdiBad").num("threw", threw);
+                        out += ob.done() + "\n";
+                    }
+                    continue;
+                }
                 xt::xtensor<double, 2> kt;
                 if (en.has("Ka"))
                 {
